@@ -16,14 +16,18 @@
 (***************************************************************************)
 EXTENDS Ops, Sequences
 
-CONSTANTS MultipliedEndForNominal, StrictBounds, FirstAfterIgnoresEnd, MaxTake
+CONSTANTS MultipliedEndForNominal, StrictBounds, FirstAfterIgnoresEnd, MaxTake,
+          ShiftMovesStoredPoints     \* C14 knob: __add__ shifts the stored (derived) points instead of rebuilding from the anchor
 
 VARIABLES m, inp,   \* mode; the arguments: [fmt, n (0 = none), a (anchor), s (second point), d (interval)]
           r,        \* the constructed object: [n, hasStart, start, hasEnd, end, hasDur, dur]
           pc,       \* "new" | "iter" | "stopped" | "abandoned"
           cur,      \* the iterator's current point (valid while pc = "iter")
-          out       \* points yielded so far
-vars == <<m, inp, r, pc, cur, out>>
+          out,      \* points yielded so far
+          sh,       \* C14: a shift duration still to be applied ([none |-> TRUE] when there is none)
+          out1      \* C14: the series of the unshifted recurrence, kept for comparison after the shift
+vars == <<m, inp, r, pc, cur, out, sh, out1>>
+NoShift == [none |-> TRUE]
 
 DurMul(d, k) == [d EXCEPT !.y = d.y * k, !.mo = d.mo * k, !.len = Mul3(d.len, k)]
 ExactDiff(a, b) == [y |-> 0, mo |-> 0, len |-> Minus3(Inst(m, a), Inst(m, b)), frac |-> FALSE]
@@ -56,7 +60,7 @@ Construct ==
                       hasEnd |-> TRUE, end |-> a, hasDur |-> TRUE, dur |-> d])
   /\ pc' = "iter"
   /\ cur' = IF r'.hasStart THEN r'.start ELSE r'.end
-  /\ UNCHANGED <<m, inp, out>>
+  /\ UNCHANGED <<m, inp, out, sh, out1>>
 
 Leq(x, y) == IF StrictBounds THEN Lt3(x, y) ELSE Le3(x, y)
 InBounds(p) == /\ (r.hasStart => Leq(Inst(m, r.start), Inst(m, p)))
@@ -71,9 +75,23 @@ IterStep ==
              ELSE IF Len(out') >= MaxTake /\ r.n = 0 THEN pc' = "abandoned" /\ UNCHANGED cur
              ELSE /\ cur' = IF r.hasStart THEN AddDurTP(m, cur, r.dur) ELSE AddDurTP(m, cur, DurNeg(r.dur))
                   /\ UNCHANGED pc
-  /\ UNCHANGED <<m, inp, r>>
+  /\ UNCHANGED <<m, inp, r, sh, out1>>
 
-Next == Construct \/ IterStep
+\* TimeRecurrence.__add__(Duration): rebuild through the constructor from the moved anchor(s) - same n, same interval
+\* (a single-point duration/end recurrence is rebuilt with an empty interval, 5a8d498)
+ShiftAct ==
+  /\ pc \in {"stopped", "abandoned"} /\ sh # NoShift
+  /\ out1' = out /\ out' = << >> /\ sh' = NoShift
+  /\ IF ShiftMovesStoredPoints
+     THEN /\ r' = [r EXCEPT !.start = IF r.hasStart THEN AddDurTP(m, r.start, sh) ELSE r.start,
+                            !.end = IF r.hasEnd THEN AddDurTP(m, r.end, sh) ELSE r.end]
+          /\ inp' = [inp EXCEPT !.a = AddDurTP(m, inp.a, sh), !.s = IF inp.fmt = 1 THEN AddDurTP(m, inp.s, sh) ELSE inp.s]
+          /\ pc' = "iter" /\ cur' = IF r'.hasStart THEN r'.start ELSE r'.end
+     ELSE /\ inp' = [inp EXCEPT !.a = AddDurTP(m, inp.a, sh), !.s = IF inp.fmt = 1 THEN AddDurTP(m, inp.s, sh) ELSE inp.s]
+          /\ pc' = "new" /\ UNCHANGED <<r, cur>>
+  /\ UNCHANGED m
+
+Next == Construct \/ IterStep \/ ShiftAct
 Terminating == pc \in {"stopped", "abandoned"}
 
 \* ---- C12 -------------------------------------------------------------------------------------
@@ -91,6 +109,12 @@ NoEarlyStop == pc = "stopped" => (inp.n > 0 \/ r.n = 1)
 FirstIsAnchor == Len(out) >= 1 /\ (inp.fmt # 4 \/ inp.n = 0 \/ r.n = 1) => SameTP(out[1], inp.a)
 \* termination: the iterator stops or is abandoned within MaxTake + n + 2 steps (checked as a bound on Len(out))
 Bounded == Len(out) <= (IF inp.n > 0 THEN inp.n ELSE MaxTake)
+
+\* ---- C14: after a shift by an exact duration the series is the old one moved by exactly that duration -------------
+ShiftedBy(d) ==
+  (pc \in {"stopped", "abandoned"} /\ sh = NoShift /\ Len(out1) > 0) =>
+     /\ Len(out) = Len(out1)
+     /\ (r.n = 1 \/ ~r.hasDur \/ DurExact(r.dur)) => \A i \in 1..Min2(Len(out), Len(out1)) : Inst(m, out[i]) = Plus3(Inst(m, out1[i]), d.len)
 
 \* ---- C13: get_first_after on the constructed object, exact intervals (the divmod shortcut) ------------------
 FirstAfterImpl(p) ==
